@@ -134,15 +134,19 @@ func linkNodesAndSinks(inner, sinks []Node, nodeIDs, sinkIDs []NodeID) (*linkedN
 func (l *linkedNode) flatten() map[NodeID]struct{} {
 	stack := []*linkedNode{l}
 	flattened := make(map[NodeID]struct{})
+	visited := make(map[*linkedNode]struct{})
 
 	for len(stack) > 0 {
 		node := stack[len(stack)-1]
 		stack = stack[:len(stack)-1]
 
-		// Skip already flattened nodes
-		if _, ok := flattened[node.nodeID]; ok {
+		// Skip already visited nodes.  A node ID may be listed more than once
+		// in a pipeline, so track the linked nodes rather than the IDs seen,
+		// otherwise the nodes following a repeated ID would be skipped.
+		if _, ok := visited[node]; ok {
 			continue
 		}
+		visited[node] = struct{}{}
 
 		flattened[node.nodeID] = struct{}{}
 
